@@ -367,7 +367,14 @@ func c19CLICheck(ci interface{}) lib.Outcome {
 			return lib.Outcome{Violation: fmt.Sprintf("%s: JSON output unreadable: %v", desc, err)}
 		}
 		gotJSON := map[string][]string{}
+		entries := map[string]int{}
 		for _, fc := range jr {
+			entries[fc.Filepath]++
+			if entries[fc.Filepath] > 1 {
+				// the output has one entry per file holding all its classifications; a file listed twice with a part of
+				// its matches each is not "for each file exactly the matches Match returns"
+				return lib.Outcome{Violation: fmt.Sprintf("%s: the JSON output lists %s in more than one entry", desc, fc.Filepath)}
+			}
 			for _, cc := range fc.Classifications {
 				k := fmt.Sprintf("%s|%v|%d|%d", cc.Name, cc.Confidence, cc.StartLine, cc.EndLine)
 				gotJSON[fc.Filepath] = append(gotJSON[fc.Filepath], k)
